@@ -10,10 +10,13 @@ from harness.props import c01
 
 RULE = ("the C01 complete small layer (documents <= 3 nodes x 1-segment vocabulary) plus seeded-random documents (<= 25 nodes; 60% with "
         "keys drawn from the escapable punctuation set  . / \\ ( ) [ ] ^ $ % ' \" space) x document-guided paths of <= 5 segments "
-        "(non-keyword fragment).  For every real result of every required query: parent[parentref] is the very node returned "
+        "(keyword segments included) plus documents with a spine of depth 3..5 x `<prefix>[parent(n)]`, n in 0..4 or absent, "
+        "the prefix made of key / index / wildcard / `**` / search segments along the spine.  For every real result of every required query: parent[parentref] is the very node returned "
         "(set: member in parent), the parent's address + reference is the node's address, the ancestry is the chain of "
         "(prefix, next reference) pairs from the root, and str(result.path) evaluated by the real Processor on the same document "
-        "returns exactly that node (or every node bearing the anchor when the path ends in [&name]).  Virtual results (slice "
+        "returns exactly that node (or every node bearing the anchor when the path ends in [&name]).  Paths with keyword "
+        "segments other than [name()] (whose result is a key, not a node) are judged on the real code alone: parent[parentref] "
+        "is the node, the ancestry walks from the root to it, str(path) re-resolves to it.  Virtual results (slice "
         "lists) are checked member by member.  distinct_nontrivial = distinct (document, path) with a non-empty result; "
         "results at depth >= 2 are counted in the histogram (deep_results).")
 
@@ -24,8 +27,8 @@ def absorb02(chk, results):
         chk.evaluations += stats["n"]
         nontrivial += stats["nontrivial"]
         chk.out_of_model += stats["oom"]
-        for k in ("queries", "nonempty", "ypath", "crash", "unparsable", "virtual", "deep_results", "requeries"):
-            chk.count(k, stats[k])
+        for k in ("queries", "nonempty", "ypath", "crash", "unparsable", "virtual", "deep_results", "requeries", "kw_judged", "kw_results"):
+            chk.count(k, stats.get(k, 0))
         for k, v in stats["kinds"].items():
             chk.count("segment:" + k, v)
         for s in samples:
@@ -44,6 +47,73 @@ def absorb02(chk, results):
     chk.nontrivial_extra = nontrivial
     # the replay is the smallest failing input found
     chk.violations.sort(key=lambda v: ev.count_nodes(v["case"]["doc"]) * 10 + len(v["case"].get("path") or ""))
+
+
+def deep_doc(rng, depth, keys, anchors=None):
+    """A document holding at least one node at the given depth: maps, lists and Arrays-of-Hashes along the spine,
+    small random documents beside it."""
+    if anchors is None:
+        anchors = {}                # one anchor table per document (an anchor name is defined once)
+    if depth <= 0:
+        return ev.random_doc(rng, 3, 3, anchors, keys)
+    spine = deep_doc(rng, depth - 1, keys, anchors)
+    sides = [ev.random_doc(rng, rng.choice([1, 1, 3, 5]), 3, anchors, keys) for _ in range(rng.randint(0, 2))]
+    kids = sides + [spine]
+    rng.shuffle(kids)
+    if rng.random() < 0.55:
+        ks = rng.sample([k for k in keys if k != "1"], len(kids))
+        return {"k": "map", "e": [[k, v] for k, v in zip(ks, kids)]}
+    return {"k": "seq", "i": kids}
+
+
+def deep_prefix(rng, doc, minlen):
+    """A prefix of key / index / wildcard / `**` (/ search) segments that follows the deepest branch of the document."""
+    out, cur = [], doc
+    while cur["k"] in ("map", "seq"):
+        kids = cur["e"] if cur["k"] == "map" else list(enumerate(cur["i"]))
+        if not kids:
+            break
+        best = max(_depth(v) for _k, v in kids)
+        ref, v = rng.choice([(k, v) for k, v in kids if _depth(v) == best])
+        r = rng.random()
+        if r < 0.12 and len(out) < minlen:
+            out.append("*")
+        elif r < 0.2 and (not out or out[-1] != "**"):
+            out.append("**")
+            if rng.random() < 0.5:
+                continue            # `**` stands for this and maybe further steps
+        elif cur["k"] == "map":
+            out.append(ev.key_text(ref))
+        elif r < 0.6:
+            out.append("[%d]" % (ref if rng.random() < 0.7 else ref - len(cur["i"])))
+        else:
+            out.append(str(ref))
+        cur = v
+    if cur["k"] not in ("map", "seq", "set") and rng.random() < 0.25:
+        out.append("[.%s%s]" % (rng.choice(["=", "!=", ">=", "<="]), ev.scalar_term(cur)))
+    return out
+
+
+def _depth(j):
+    if j["k"] == "map":
+        return 1 + max([_depth(v) for _k, v in j["e"]] + [0])
+    if j["k"] == "seq":
+        return 1 + max([_depth(v) for v in j["i"]] + [0])
+    return 0
+
+
+def parent_cases(rng, n):
+    """`<prefix>[parent(n)]`, n in 0..4 (and the bare `[parent()]`), after prefixes that reach depth >= 3."""
+    out = []
+    for _ in range(n):
+        d = deep_doc(rng, rng.randint(3, 5), ev.PUNCT_KEYS if rng.random() < 0.3 else ev.RKEYS)
+        pre = deep_prefix(rng, d, 3)
+        for lv in rng.sample(["", "0", "1", "2", "3", "4"], 3):
+            tail = ["[parent(%s)]" % lv]
+            if rng.random() < 0.15:
+                tail.append(rng.choice(["*", "[parent()]", "[parent(2)]", "[has_child(a)]", "[0]", "a"]))
+            out.append((d, pre + tail))
+    return out
 
 
 def run(chk: core.Check):
@@ -78,6 +148,7 @@ def run(chk: core.Check):
     for _ in range(nrand):
         d = ev.random_doc(rng, rng.choice([6, 10, 15, 25]), keys=ev.PUNCT_KEYS if rng.random() < 0.6 else None)
         cases.append((d, ev.guided_path(rng, d)))
+    cases += parent_cases(rng, 4000 if chk.tier == "quick" else 40000)
     rng.shuffle(cases)
     chk.exhaustive = True
     cases = c01.subsample(chk, cases)
